@@ -412,7 +412,19 @@ pub fn c10(r: &Report) {
             } else {
                 r.fail(sub, None, json!({"type": e.name}), format!("Decode::nil() is {} for a type that is {}optional: a field of this type that is missing from the input would {}", if optional { "None" } else { "Some" }, if optional { "" } else { "not " }, if optional { "be an error instead of None" } else { "be accepted instead of reported as a missing value" }));
             }
-            for v in (e.values)() {
+            // the two directions agree: a type has a nil value to decode an absent field to exactly if one of its
+            // values is left out by the encoder
+            let vals = (e.values)();
+            let some_value_is_nil = vals.iter().any(|v| v.is_nil());
+            let has_none = optional && vals.iter().any(|v| v.model() == refmodel::NULL);
+            n += 1;
+            // (an optional type whose small domain happens to hold no None is not judged)
+            if (optional && !has_none) || some_value_is_nil == (e.nil_some)() {
+                ok += 1;
+            } else {
+                r.fail(sub, None, json!({"type": e.name}), format!("Encode::is_nil() is true for some value: {}, Decode::nil() is Some: {} - a derived encoder would leave the field out and the derived decoder would report it missing (or the other way round)", some_value_is_nil, (e.nil_some)()));
+            }
+            for v in vals {
                 n += 1;
                 let none = optional && v.model() == refmodel::NULL;
                 if v.is_nil() == none {
